@@ -333,7 +333,10 @@ int main (int argc, char *argv[]) {
                 }
             }
         }
-        write_data(zck, data + start, in_size - (start + matched));
+        /* A partial match may reach back into previous blocks, in which case
+         * nothing of this block is left to write */
+        if(in_size - (start + matched) > 0)
+            write_data(zck, data + start, in_size - (start + matched));
     }
     /* The input ended in the middle of a possible split string: those bytes
      * were held back and still have to be written */
